@@ -49,19 +49,38 @@ def vx1(m, run):
         ok = all(x.slice.id == var for x in per_axis)
         run.ob('VX1.voxel-grid', '%s :: %s' % (fi.key, norm(comp)[:70]), ok, 'every per-axis quantity is indexed by the same axis variable' if ok else
                'per-axis quantities are indexed by different variables %s' % sorted({x.slice.id for x in per_axis}), site(fi, comp))
-    # ranges are generated from the steps that also size the voxels
-    rng = [n for n in walk_no_nested(fi.node) if isinstance(n, ast.Assign) and any('frange' in norm(x.func) for x in ast.walk(n.value) if isinstance(x, ast.Call))]
-    use = [n for n in walk_no_nested(fi.node) if isinstance(n, ast.Assign) and isinstance(n.value, ast.ListComp) and 'zip' in norm(n.value) and 'steps' in norm(n.value)
-           and not any('frange' in norm(x.func) for x in ast.walk(n.value) if isinstance(x, ast.Call))]
-    if not rng or not use:
-        raise AnalysisError('generate_voxel_grid: origin range / voxel size statements not found')
-    stepname = 'steps'
-    d1 = {id(d[0]) for d in sc.reaching(stepname, rng[0].value)}
-    d2 = {id(d[0]) for d in sc.reaching(stepname, use[0].value)}
-    run.ob('VX1.voxel-grid', fi.key + ' :: ranges use the final steps', d1 == d2,
-           'voxel origins and voxel sizes use the same step values' if d1 == d2 else
-           'the origin ranges are generated from a different definition of the steps than the voxel sizes (e.g. before the use_cubes override): origins are spaced by '
-           'one step and voxels sized by another, so the grid has gaps and does not cover the bounding box', site(fi, rng[0]))
+    # ranges are generated from the steps that also size the voxels: after the origin ranges have been generated, the step array is not
+    # re-assigned before it sizes the voxels (e.g. by the use_cubes override) - otherwise origins are spaced by one step and voxels sized by another
+    from ..cfg import CFG
+    cfg = CFG(fi.node)
+    fr = [c for c in walk_no_nested(fi.node) if isinstance(c, ast.Call) and norm(c.func).endswith('frange') and len(c.args) >= 3]
+    if not fr:
+        raise AnalysisError('generate_voxel_grid: frange call not found')
+    a3 = fr[0].args[2]
+    stepname = None
+    if isinstance(a3, ast.Subscript) and isinstance(a3.value, ast.Name):
+        stepname = a3.value.id
+    elif isinstance(a3, ast.Name):
+        for c in walk_no_nested(fi.node):
+            if isinstance(c, ast.Call) and isinstance(c.func, ast.Attribute) and c.func.attr == 'append' and isinstance(c.func.value, ast.Name) \
+                    and c.args and isinstance(c.args[0], ast.Name) and c.args[0].id == a3.id:
+                stepname = c.func.value.id
+    if stepname is None:
+        raise AnalysisError('generate_voxel_grid: the step passed to frange is not an element of a step array (unknown idiom)')
+    use = [n for n in walk_no_nested(fi.node) if isinstance(n, ast.Assign) and any(isinstance(z, ast.Call) and norm(z.func) == 'zip' and any(
+        isinstance(x, ast.Name) and x.id == stepname for x in z.args) for z in ast.walk(n.value))]
+    if not use:
+        raise AnalysisError('generate_voxel_grid: voxel size statement (zip with the step array) not found')
+    rnode, unode = cfg.node_of(fr[0]), cfg.node_of(use[0])
+    redefs = [cfg.of[n] for n in walk_no_nested(fi.node) if isinstance(n, ast.Assign) and any(isinstance(t, ast.Name) and t.id == stepname for t in n.targets) and n in cfg.of]
+    after_r = set()
+    for sc_, lab in rnode.succ:
+        after_r |= cfg.reach_from(sc_)
+    between = [d for d in redefs if d in after_r and d is not rnode and unode in cfg.reach_from(d)]
+    run.ob('VX1.voxel-grid', fi.key + ' :: ranges use the final steps', not between,
+           'voxel origins and voxel sizes use the same step values' if not between else
+           'the step array `%s` is re-assigned at line %d after the origin ranges were generated (line %d) and before it sizes the voxels: origins are spaced by '
+           'one step and voxels sized by another, so the grid has gaps and does not cover the bounding box' % (stepname, between[0].ast.lineno, fr[0].lineno), site(fi, fr[0]))
     # nest order u, v, w and voxel = [bbmin, bbmax] with bbmax = bbmin + steps
     st = m.func('_voxelize.find_inouts_st')
     init = [n for n in walk_no_nested(st.node) if isinstance(n, ast.Assign) and isinstance(n.value, ast.ListComp) and isinstance(n.value.elt, ast.Constant) and n.value.elt.value == 0]
